@@ -95,18 +95,28 @@ class UserAction(Contract):
         if self.name == "UserAddNode":
             has, at = C.dict_view(self.attrs)
             K = W.K
-            I.ctx.assume(AND(IMP(has(K.tk), is_VInt(at(K.tk))), IMP(has(K.trk), is_VInt(at(K.trk)))))
+            I.ctx.assume(AND(IMP(has(K.tk), is_VInt(at(K.tk))), IMP(has(K.trk), is_VInt(at(K.trk))),
+                             IMP(has(K.pk), z3.Not(is_VNone(at(K.pk))))))
             # the lineage of a new node is derived by the action (attributes "must contain time and track_id")
             I.ctx.assume(z3.Not(has(K.lk)))
 
     def run(self, I, cfg):
         ctx = I.ctx
-        W = C.world(I, has_seg=cfg.get("seg", False), lineage=True, inv=cfg.get("inv", ("forest", "trackids", "b1", "b2", "segfacts")))
+        inv = cfg.get("inv", ("forest", "trackids", "b1", "b2", "segfacts"))
+        if cfg.get("lineage_inv"):
+            inv = tuple(inv) + ("b1l",)
+        W = C.world(I, has_seg=cfg.get("seg", False), lineage=True, inv=inv)
         W.with_lineage = bool(cfg.get("lineage_inv", False))
+        W.lineage_lookup_contract = W.with_lineage
+        W.check_invertible_here = True
+        W.step_lemmas = True
         if W.with_lineage:
             for lbl, f in T.LINEAGE(W.v0, W.K):
                 ctx.assume(IMP(W.act["lineage"], f), "inv." + lbl)
             ctx.assume(IMP(W.act["lineage"], forall([a_], IMP(W.v0.N(a_), iv(T.lid(W.v0, W.K, a_)) <= W.maxL()))))
+            # M1b on the entry state (L1 is assumed there): lineage ids are equal along descendant paths
+            B0 = C.below_of(I, W, view=W.v0)
+            ctx.assume(IMP(W.act["lineage"], forall([a_, b_], IMP(B0.rel(a_, b_), T.lid(W.v0, W.K, a_) == T.lid(W.v0, W.K, b_)))), "lemma.M1b")
         C.install_callsite_contracts(I, W)
         P.install_loopspecs(I, W)
         P.install_prim_contracts(I, W)
@@ -139,6 +149,11 @@ class UserAction(Contract):
             return
         inst = out[1]
         top = self.top
+        # C01: the group records exactly the sub-actions it applied, in the order it applied them
+        acts, applied = inst.fields.get("actions"), g.get("applied", [])
+        same = isinstance(acts, list) and len(acts) == len(applied) and all(a is b for a, b in zip(acts, applied))
+        ctx.oblige(f"C01/{q}/ensures:actions-list-records-every-applied-sub-action-in-order", z3.BoolVal(same), props=("C01",),
+                   note=f"recorded={[getattr(getattr(a, 'cls', None), 'name', '?') for a in (acts or [])]} applied={[a.cls.name for a in applied]}")
         # C02: exactly one history entry iff top-level, and it is this action
         ok_h = (g["hadd"] == 1 and g["hadd_actions"][0] is inst)
         ctx.oblige(f"C02/{q}/ensures:one-history-entry-iff-top-level",
@@ -188,6 +203,7 @@ def inv_clauses(W, s1):
     if W.with_lineage:
         out += [(lbl, IMP(W.act["lineage"], f), ("C05",)) for lbl, f in T.LINEAGE(v1, K)]
         out.append(("C06.B2.lin", IMP(W.act["lineage"], forall([a_], IMP(v1.N(a_), iv(T.lid(v1, K, a_)) <= s1.maxL))), ("C06", "C05")))
+        out.append(("C06.B1.lin", IMP(W.act["lineage"], forall([C_i, a_], s1.L[1](C_i, a_) == z3.If(AND(v1.N(a_), v1.A(a_, K.lk) == VInt(C_i)), 1, 0))), ("C06",)))
     return out
 
 
@@ -241,16 +257,12 @@ class NestedEdgeEdit(Contract):
         inst = Instance(cls)
         env = I.bind_args(node, [inst] + list(args), kw, lambda d: I.eval_in_module(d, cls.module))
         top = env["_top_level"]
-        if not (top is False):
-            raise C.Unsupported("nested contract used with _top_level != False")
         if self.name == "UserAddEdge" and not (env["force"] is False):
             raise C.Unsupported("nested UserAddEdge contract only for force=False")
         u, w = (to_z3(x, Int) for x in env["edge"])
         s0 = C.Snap(W, I)
         K = W.K
-        k = ctx.ghost.setdefault("nested_calls", 0)
-        ctx.ghost["nested_calls"] += 1
-        tag = f"{ctx.func}/call#{k}/{self.name}"
+        tag = f"call:{I.call_site_id(self.name)}"
         for lbl, f, props in inv_clauses(W, s0):
             ctx.oblige(f"{tag}/requires:{lbl}", f, kind="pre", props=props)
         v0 = s0.v
@@ -273,6 +285,12 @@ class NestedEdgeEdit(Contract):
         ctx.ghost.setdefault("lemma_steps", []).append(f"M2' after nested {self.name}")
         inst.fields.update({"tracks": W.tracks, "actions": []})
         ctx.ghost["log"].append((self.name,))
+        ctx.ghost.setdefault("applied", []).append(inst)
+        if I.truthy(top, "nested action registers itself (_top_level)"):
+            # a sub-action created as top-level registers itself in the history and emits refresh
+            ctx.ghost["hadd"] += 1
+            ctx.ghost.setdefault("hadd_actions", []).append(inst)
+            ctx.ghost["emits"].append(())
         return inst
 
 
